@@ -14,7 +14,7 @@ reg(Spec(
     args_thorough=["-n", "4000", "-nc", "1500"],
     args_search=["-n", "3000", "-nc", "1000"],
     assumptions=[
-        "component names are abstracted to numbers; the Go map is an association list without duplicate keys",
+        "component names are abstracted to numbers in the model; the Go map is an association list without duplicate keys. The harness draws the NAME of each number per case (harness/health/names.go: plain names, the implementation's own words - verdict key, status words, empty string - and near misses of them, JSON/HTML-significant text, non-ASCII, names up to 70 KiB; valid UTF-8, pairwise distinct) and asks every state several times (Go's map iteration order); a component NAMED like the verdict key has no entry of its own in the body (one JSON object: the verdict is written last) - status code, verdict and IsReady must be those of the history all the same, the body lists the other components (Model/Health.v: obs_matches_sh)",
         "one GenericSyncMap method call = one critical section (checked: the request's lock trace must be [Len; Iterate])",
         "WaitForReady's select is modelled as the sequence of arms taken; wall-clock polling is observed, not proved",
         "overlapping registrations / ready-marks (one paused before each of its lock acquisitions while others run completely): IsReady, a WaitForReady started afterwards (watched 5 ms when it must not complete, 2 s when it must) and /readyz must all be the sequential model's answers for ONE order of the overlapping calls; oracle only, no Coq case files",
@@ -153,7 +153,8 @@ reg(Spec(
     args_search=["-n", "2000"],
     assumptions=[
         "files are byte lists on an in-memory file system behind the package's own fileSystem/fsWatcher seams; each fsnotify event carries one op bit and is processed before the next change (enforced by a barrier event)",
-        "no file-system errors (the backoff/retry path is not modelled); no events during start-up; truncation is to length 0",
+        "no file-system errors (the backoff/retry path is not modelled); truncation is to length 0",
+        "events during start-up: the model has none; the harness delivers them (appends to audit.log with their Write events, empty Writes, Chmod, other names; before the first Open, while an older file is read, right when the read of audit.log starts, after some or all of its lines; offered while nobody receives from Lines()) and judges by the oracle: by the first Write event processed after start-up every complete line of the initial files and of what was appended meanwhile has been delivered exactly once, in order; for the model such a case is the directory with those appends already in audit.log",
         "names: audit.log, audit.log.<n> (n unbounded), others filtered; names with a non-decimal suffix and leading-zero duplicates are not modelled",
     ],
     modelled=["processors/auditd/dirreader/dirreader.go (sortLogNamesOldToNew, loopWithError, rotatingFile.read, readFilePathLines, readLines)"],
@@ -206,6 +207,10 @@ reg(Spec(
         "combined runs: a login is abstracted to (record index, forwarded PID, handler clock, credential id non-empty); cleanups may fall between a rendez-vous and its RemoteLogin (more interleavings than the code has)",
         "correlator calls are atomic (C03); the tracker component of a pipeline run is the sequential correlator on the run's own history",
         DAEMON_ASSUME,
+        "large events (both stages): execve events whose argument list makes the UserAction line 3-70 KiB, account names / certificate key ids of some KiB (UserLogin lines beyond one page, and every "
+        "UserAction of such a session: many short audit records, each a large output line). Daemon stage, every fourth scenario: while the audit pipeline works through these the harness keeps a burst of "
+        "stand-alone failure lines going on the sshd pipe (until the events file holds the UserActions the scenario must produce; bounded), GOMAXPROCS >= 2, no pacing; every line of the events file must "
+        "be one whole JSON event. That a single write(2) of any size on an O_APPEND regular file is not interleaved with another is the kernel's behaviour, observed",
     ],
     modelled=["cmd/namedpipe.go wiring (one event writer, unbuffered logins channel)", "order of write and hand-off in processors/sshd", "sessiontracker (shared model)"],
 ))
@@ -275,6 +280,11 @@ SPECS["C03"].assumptions = SPECS["C03"].assumptions + [
 SPECS["C08"].thorough_extra = SPECS["C08"].thorough_extra + [
     ("auditproc", AUDITPROC_OVERLAY, ["-mode", "cancelfull", "-n", "4"], False, ["-mode", "cancelfull", "-n", "1"])]
 SPECS["C08"].assumptions = SPECS["C08"].assumptions + [
+    "binary scenarios, the audit side failing while the sshd side hands logins over (harness/workers/c08_handoff.go): a login the correlator rejects, an unparsable audit line, "
+    "audit-pipe end-of-stream and the events sink breaking under a stream of session events, each injected while accepted logins of all four forms arrive on the sshd pipe - in ONE "
+    "write with / right before the fault (burst: 360 lines, no waiting in between) or from a writer that keeps the pipe full (flood: fault 20-60 ms after events flow; racy, twice per "
+    "round, a replay repeats up to 12 times) - so that an sshd worker is in the hand-off, or enters it from lines already in its read buffer, when nobody receives logins any more; the "
+    "daemon must exit non-zero within 5 s",
     "binary scenarios: every processor-local failure cause (audit-side write failure after the login was recorded, invalid login) also under sustained "
     "audit load whose writer keeps writing after the fault; package-level stage (auditproc -mode cancelfull): Auditd.Read returns within 2 s of "
     "cancellation / invalid login / write failure while 2-3 producers keep its Audits channel (capacity 0, 1, 64, 10000) non-empty",
